@@ -238,16 +238,20 @@ Print Assumptions c12_evalsha_cached.
 
 (* Construction options.  New(addr, opts...) yields an instance whose go-redis client is configured with exactly the
    arguments given -- address addr; cluster client iff WithCluster() is among the options; TLS iff WithTLS() is; the
-   password of the LAST WithPass (none: empty) -- whatever the order and combination of the options; and
+   password of the LAST WithPass (none: empty) -- whatever the order and combination of the options;
    Config{Host, Type, Pass, Tls}.NewRedis() hands every one of type=cluster, Pass, Tls on, independently. *)
 Theorem c12_options_applied :
   (forall addr opts,
      let '(ty, a, p, t) := dial_config (new_w addr opts) in
      a = addr /\ (ty = TCluster <-> In OCluster opts) /\ (t = true <-> In OTLS opts) /\ p = last_pass opts "") /\
   (forall c, dial_config (new_redis c) =
-             ((if String.eqb (c_type c) "cluster" then TCluster else TNode), c_host c, c_pass c, c_tls c)).
+             ((if String.eqb (c_type c) "cluster" then TCluster else TNode), c_host c, c_pass c, c_tls c)) /\
+  (* a blocking node of the instance dials like the instance itself -- TLS iff WithTLS() -- (generated
+     CreateBlockingNode row: tlsConfig from r.tls reaches both option literals) *)
+  (blocking_tls_ok C12_Table.construction_table = true /\
+   forall addr opts, blocking_config (new_w addr opts) = dial_config (new_w addr opts)).
 Proof.
-  split.
+  split; [|split; [|split; [exact link_blocking_tls|reflexivity]]].
   - intros addr opts. unfold dial_config, new_w.
     destruct (fold_opts opts (mkw addr TNode "" false)) as [Ha [Ht [Hl Hp]]]. simpl in *.
     repeat split; try assumption.
